@@ -5,19 +5,22 @@
 set -u
 id="$1"; shift
 ROOT="$(cd "$(dirname "$0")/.." && pwd)"
+# VERIF_REPO: a scratch clone of /repo that a COPY of /verif is built from (its shadow manifests
+# point there); used for long batches (tools/seed_matrix.sh) so that /repo itself stays untouched
+REPO="${VERIF_REPO:-/repo}"
 dir="$ROOT/seeded/$id"
 [ -f "$dir/patch.diff" ] || { echo "no $dir/patch.diff"; exit 2; }
-[ -z "$(git -C /repo status --porcelain -- src Cargo.toml)" ] || { echo "/repo has uncommitted changes"; exit 2; }
+[ -z "$(git -C "$REPO" status --porcelain -- src Cargo.toml)" ] || { echo "/repo has uncommitted changes"; exit 2; }
 props="$*"
 if [ -z "$props" ]; then props="$(python3 -c "import json;print(' '.join(json.load(open('$dir/meta.json')).get('check_with',[])))" 2>/dev/null)"; fi
 [ -n "$props" ] || props="C01 C02 C03 C04 C05 C06 C07 C08 C09 C10 C11 C12 C13 C14 C15 C16 C17 C18 C19"
-exec 8>/var/tmp/lzsim-repo.lock; flock -x 8; export VERIF_NO_REPO_LOCK=1
-git -C /repo apply "$dir/patch.diff" || { echo "patch does not apply"; exit 2; }
+if [ "$REPO" = /repo ]; then exec 8>/var/tmp/lzsim-repo.lock; flock -x 8; fi; export VERIF_NO_REPO_LOCK=1
+git -C "$REPO" apply "$dir/patch.diff" || { echo "patch does not apply"; exit 2; }
 # evidence/ and replays/ describe the unchanged tree: keep them out of a seed trial's way
 bak="$(mktemp -d /var/tmp/seedtrial.XXXXXX)"
 cp -a $ROOT/evidence "$bak/evidence"; [ -d $ROOT/replays ] && mv $ROOT/replays "$bak/replays"
 restore() {
-  git -C /repo checkout -- .
+  git -C "$REPO" checkout -- .
   # keep the three smallest replay files of the trial next to the patch
   rm -rf "$dir/replays"; mkdir -p "$dir/replays"
   ls -Sr $ROOT/replays/*.json 2>/dev/null | head -3 | while read -r f; do cp "$f" "$dir/replays/"; done
